@@ -13,7 +13,11 @@ def _lazy(mod, fn):
 PROPS = {}
 
 def reg(pid, mod, fn, level, rule, explanation, assumptions):
+    if pid != "C11":
+        explanation = explanation + RB_TEXT
     PROPS[pid] = (_lazy(mod, fn), level, rule, explanation, assumptions)
+
+RB_TEXT = " RB (X): every body these rules evaluated is identical in the no_std build (fma provider aside; where the rules rely on products, that provider is libm::fma(x,y,z) behind the single wrapper), so the verdict carries over to that configuration."
 
 COMMON_ASSUME = [
     "the type-checked MIR of /repo's current working tree (dev profile, overflow checks on, mir-opt-level 0) is what is analysed; no library code is executed",
@@ -30,7 +34,7 @@ reg("C03", "rules_arith", "check_C03", "proof",
     COMMON_ASSUME + ["Joldes-Muller-Popescu 2017 Alg. 4 (2u^2) and Alg. 6 (3u^2+13u^3) bounds under the property's range restrictions"])
 reg("C04", "rules_arith", "check_C04", "proof",
     "instances = the three reference/reference mul bodies, two compound-assignment bodies, every spelling; distinct by impl",
-    "S-rule R8: conformance of x to Alg. 9 (DWTimesFP3) / Alg. 12 (DWTimesDW3) with FMA nodes distinguished from mul+add; R13/R14 spellings; R5 fma provider; R8x (S, rewriting with the exact identities for 0 and +-1 and the operand's validity): a zero factor gives exactly zero, multiplying by +-1 is exact (TwoFloat and f64 factors, either side).",
+    "S-rule R8: conformance of x to Alg. 9 (DWTimesFP3) / Alg. 12 (DWTimesDW3) with FMA nodes distinguished from mul+add; R13/R14 spellings; R5 fma provider; R8x (S, rewriting with the exact identities for 0 and +-1 and the operand's validity): a zero factor gives exactly zero, multiplying by +-1 is exact (TwoFloat and f64 factors, either side). R8p (S): an impl Product for TwoFloat, when present, is fold(1, Mul::mul).",
     COMMON_ASSUME + ["JMP 2017 Alg. 9 (2u^2), Alg. 12 (5u^2) bounds"])
 reg("C05", "rules_arith", "check_C05", "other",
     "instances = DWDivFP3 bodies, the three long-division bodies, recip, every spelling; distinct by impl",
@@ -38,12 +42,12 @@ reg("C05", "rules_arith", "check_C05", "other",
     COMMON_ASSUME + ["JMP 2017 Alg. 15 bound; the long-division accuracy is not decided"])
 reg("C19", "rules_arith", "check_C19", "other",
     "instances = the three rem bodies and every spelling, %=, div_euclid and rem_euclid decision trees",
-    "R51 (S/X): every form of % is a - trunc(a/b)*b at operator level and all spellings agree bit-for-bit. R52 (N): div_euclid / rem_euclid decision trees equal the floor/ceil adjustment table. Numeric tolerances are not decided.",
+    "R51 (S/X): every form of % is a - trunc(a/b)*b at operator level and all spellings agree bit-for-bit. R52 (N): div_euclid / rem_euclid decision trees equal the floor/ceil adjustment table; R52d (X): a num_traits method with one of these names returns the inherent one. Numeric tolerances are not decided.",
     COMMON_ASSUME + ["accuracy of the composed operations (C03-C05, C08) is not re-derived here"])
 
 reg("C10", "rules_c10", "check_C10", "proof",
     "obligations = one per operator spelling (R13), compound assignment (R14), algebraic identity (R15), num_traits method with an inherent counterpart (R16), Sum (R7)",
-    "Program-equivalence proofs by normalisation: R13/R14 every by-value/by-reference/compound-assignment spelling of + - * / % (TwoFloat and f64 operands), Neg, Inv, Pow has the identical IEEE-operation normal form (algebra E, bit-for-bit incl. signed zeros); R15 commutativity / antisymmetry identities with 2Sum/2Prod as conformance-identified error-free primitives (E bit-exact; three identities hold only modulo the sign of zero words = recorded known finding K1); R16 every num_traits entry point returns exactly its inherent counterpart / constant; R7 Sum is fold(0,+).",
+    "Program-equivalence proofs by normalisation: R13/R14 every by-value/by-reference/compound-assignment spelling of + - * / % (TwoFloat and f64 operands), Neg, Inv, Pow has the identical IEEE-operation normal form (algebra E, bit-for-bit incl. signed zeros); R15 commutativity / antisymmetry identities with 2Sum/2Prod as conformance-identified error-free primitives (E bit-exact; three identities hold only modulo the sign of zero words = recorded known finding K1); R16 every num_traits entry point (Float, FloatCore, Signed, ... and any further num_traits impl on TwoFloat whose method has an inherent namesake of the same arity) returns exactly its inherent counterpart / constant; R7 Sum is fold(0,+); R7p a Product impl, when present, is fold(1,*).",
     COMMON_ASSUME + ["identities are for finite non-overflowing evaluations (EFT commutativity is a theorem there); NaN payload bits not considered", "Float::copysign's default body equals the inherent one by review, not by graph"])
 
 reg("C11", "rules_c11", "check_C11", "proof",
@@ -63,7 +67,7 @@ reg("C01", "rules_c01", "check_C01", "other",
 
 reg("C06", "rules_base", "check_C06", "other",
     "instances = NaN-screen obligations (2 functions x 4 words), decision tables of eq / partial_cmp / mixed f64 comparisons and their mirrors / min / max / sign queries",
-    "R12 (N): with any one of the four words NaN, eq returns false and partial_cmp None on every path (all outcome classes enumerated). R12b-d (S, semantic decision-tree equivalence over order relations): eq, partial_cmp, TwoFloat<->f64 comparisons in both orders (mirror = reversed), min/max, abs, copysign, signum, is_sign_* equal their reference tables. That lexicographic comparison of words equals comparison of exact values rests on normalisation (C01) and is not re-proved.",
+    "R12 (N): with any one of the four words NaN, eq returns false and partial_cmp None on every path (all outcome classes enumerated). R12b-d (S, semantic decision-tree equivalence over order relations): eq, partial_cmp, TwoFloat<->f64 comparisons in both orders (mirror = reversed), min/max, abs, copysign, signum, is_sign_* equal their reference tables. R12o (X): an overridden lt/le/gt/ge/ne equals the function of partial_cmp/eq it replaces. R12v (N): is_valid is false whenever a word is NaN (theory link). That lexicographic comparison of words equals comparison of exact values rests on normalisation (C01) and is not re-proved.",
     COMMON_ASSUME + ["lexicographic (hi, lo) order == order of exact values for normalised operands (numeric lemma, not decided)"])
 reg("C07", "rules_base", "check_C07", "other",
     "instances = is_valid, two TryFrom impls, four From<TwoFloat> projections, the no_overlap predicate",
@@ -107,8 +111,8 @@ reg("C09", "rules_conv", "check_C09", "other",
     COMMON_ASSUME + ["run-time integer/float arithmetic exactness per value is not decided"])
 
 reg("C20", "rules_fmt", "check_C20", "other",
-    "instances = 12 format_args! sites (expanded AST) + 3 fmt bodies (MIR, 8 paths each) + template agreement, serde writer, field visitor, visit_seq, visit_map, entry point",
-    "R53 (S per arm, X across impls): every format_args! in Display/LowerExp/UpperExp::fmt is '<hi> <sign> <|lo|>' with the impl's own trait, '+' exactly in the sign_plus arm and on the first numeral only, precision forwarded to both numerals exactly in the Some(p) arm; on the MIR the sign character is '+' iff lo's sign bit is clear and the arguments are (hi, sign, libm::fabs(lo)); the three impls compile identical templates. R54 (S): the writer emits struct(2){hi, lo} in order; the reader maps exactly hi/lo, visit_seq and visit_map (loop analysed by havoc abstraction + def-use slicing) feed element 0 / the Hi slot and element 1 / the Lo slot to TwoFloat::try_from, which is the only way to an Ok value, with duplicate/missing/unknown fields rejected. core::fmt's rendering of an f64 and serde data formats are trusted.",
+    "instances = 12 format_args! sites (expanded AST, linked to the MIR paths that reach them by source position) + 3 fmt bodies (MIR, 8 paths each) + template agreement, serde writer, field visitor, visit_seq, visit_map, entry point",
+    "R53 (S per flag combination, X across impls; the combination a template serves is read from the MIR paths, not from the surrounding syntax): every format_args! reached from Display/LowerExp/UpperExp::fmt is '<hi> <sign> <|lo|>' with the impl's own trait, '+' exactly in the sign_plus arm and on the first numeral only, precision forwarded to both numerals exactly in the Some(p) arm; on the MIR the sign character is '+' iff lo's sign bit is clear and the arguments are (hi, sign, libm::fabs(lo)); the three impls compile identical templates. R54 (S): the writer emits struct(2){hi, lo} in order; the reader maps exactly hi/lo, visit_seq and visit_map (loop analysed by havoc abstraction + def-use slicing) feed element 0 / the Hi slot and element 1 / the Lo slot to TwoFloat::try_from, which is the only way to an Ok value, with duplicate/missing/unknown fields rejected. core::fmt's rendering of an f64 and serde data formats are trusted.",
     COMMON_ASSUME + ["f64's own Display/LowerExp/UpperExp round-trip guarantee (core::fmt) and serde's data-format behaviour"])
 
 def main(argv):
